@@ -76,7 +76,19 @@ def _one(job):
                dict(missing=sorted(defined - declared)[:5]))
     except Exception as e:  # noqa: BLE001
         return dict(file=rel, opts=opts, error=f"{type(e).__name__}: {e}", tb=traceback.format_exc()[-1500:])
-    names = sorted(parsed['structs']) + sorted(parsed['aliases'])
+    import re
+
+    # every FILE-SCOPE definition of the source, with multiplicity (the dict of parsed objects would hide duplicates):
+    # definitions are recognised on lines at brace depth 0
+    names = []
+    depth = 0
+    pat = re.compile(r"^(?:[A-Za-z_][\w ]*?[\w\*]\s+\**)(\w+)\s*(?:\[[^\]]*\])*\s*(?:=|\()")
+    for line in src.splitlines():
+        if depth == 0 and not line.startswith(("#", "//", "typedef", "extern")):
+            m = pat.match(line)
+            if m:
+                names.append(m.group(1))
+        depth += line.count("{") - line.count("}")
     return dict(file=rel, opts=opts, results=res, names=names)
 
 
